@@ -87,6 +87,16 @@ def gen_grads(rng, case, dtype):
         v = np.array([float(rng.rint(-4, 4)) for _ in range(n)])
       elif kind == "scale":
         v = np.array([rng.normal() * scales[i] for _ in range(n)])
+      elif kind == "sparse_rows":   # one slice along axis 0 per step (embedding-style): the other
+        # rows stay in the null space of the statistics until their turn, so a gradient can lie wholly
+        # in the part of a stale covariance that is treated as zero
+        v = np.zeros(s if s else (1,))
+        if s:
+          v[(t + i) % s[0]] = np.array([rng.normal() for _ in range(int(np.prod(s[1:])) if len(s) > 1 else 1)]
+                                       ).reshape(s[1:]) if len(s) > 1 else rng.normal()
+        else:
+          v[0] = rng.normal()
+        v = v.ravel()
       elif kind == "blockscale":    # first half of the entries 1e4 times larger than the second
         v = np.array([rng.normal() * (1.0 if 2 * j < n else 1e-4) for j in range(n)])
       else:
